@@ -1,6 +1,8 @@
 (* codecs: one line in, one line out.  Decoders run the buffer-level model on (input ++ [0]) with fuel |input|+1. *)
-open Model
-open Util
+open Enc_model
+module U = Util.Make(Enc_model)
+open U
+let res_str f r = match r with Ok x -> f x | Crash -> "CRASH" | Fuel -> "FUEL"
 let run () =
   iter_lines (fun line ->
     match words line with
